@@ -132,6 +132,10 @@ func runSynth(c *harness.Ctx) harness.Result {
 		if r.Intn(4) == 0 {
 			bias = uint64(0x550000000000) + uint64(r.Intn(1<<20))*pg&^(l.align-1)
 		}
+		if r.Intn(4) == 0 {
+			// any page-aligned bias: loaders are not obliged to honour a p_align above the page size
+			bias = uint64(0x7f3a00000000) + uint64(r.Intn(1<<20))*pg
+		}
 	}
 	x := l.phs[l.xseg]
 	// loader: the executable segment is mapped page-wise
